@@ -136,10 +136,13 @@ func scenarioC07(x *runner.X) {
 			}
 		}
 	}
+	// the --gsfa-only-signatures mode of the server: entries carry the signature only
+	onlySigs := t.Bool(0.3)
+	x.Note("gsfa_only_signatures", onlySigs)
 	worldStrictEpochOrder = true
 	x.Sim(runner.SimOpts{Phase: "gsfa-paging", Cfg: dsim.Config{MaxSteps: 30000000, MaxSimTime: 10 * time.Hour}}, func() {
 		s := dsim.Active()
-		multi := NewMultiEpoch(&Options{EpochSearchConcurrency: 2})
+		multi := NewMultiEpoch(&Options{EpochSearchConcurrency: 2, GsfaOnlySignatures: onlySigs})
 		srvLoad := newServerLoader()
 		for _, b := range ws {
 			ep, err := srvLoad(b.cfg)
@@ -249,11 +252,19 @@ func scenarioC07(x *runner.X) {
 					if len(sg) >= 8 {
 						sg = sg[:8]
 					}
-					gotS = append(gotS, fmt.Sprintf("%s@%d", sg, uint64(slot)))
+					if onlySigs {
+						gotS = append(gotS, sg)
+					} else {
+						gotS = append(gotS, fmt.Sprintf("%s@%d", sg, uint64(slot)))
+					}
 				}
 				var wantS []string
 				for _, tx := range want {
-					wantS = append(wantS, fmt.Sprintf("%s@%d", tx.Sig().String()[:8], tx.Slot))
+					if onlySigs {
+						wantS = append(wantS, tx.Sig().String()[:8])
+					} else {
+						wantS = append(wantS, fmt.Sprintf("%s@%d", tx.Sig().String()[:8], tx.Slot))
+					}
 				}
 				if fmt.Sprint(gotS) != fmt.Sprint(wantS) {
 					sig := "getSignaturesForAddress returns a different slice of the history"
